@@ -237,9 +237,13 @@ Definition sm_empty (m : list (list Z)) : bool := match m with [] => true | _ =>
 Definition cells_nan (m : list (list Z)) : bool := existsb (existsb f32_is_nan) m.
 Definition cells_posinf (m : list (list Z)) : bool := existsb (existsb f32_is_posinf) m.
 
-(* ensure_ordered(distribution): no NaN; for a score distribution also no +inf and not empty *)
+(* some cell is a finite number (a1b1f91: a matrix whose cells are all -inf has no score distribution) *)
+Definition cells_some_finite (m : list (list Z)) : bool := existsb (existsb f32_is_finite) m.
+
+(* ensure_ordered(distribution): no NaN; for a score distribution also no +inf, not empty, and at
+   least one finite cell *)
 Definition ordered_ok (distribution : bool) (m : list (list Z)) : bool :=
-  negb (cells_nan m || (distribution && (cells_posinf m || sm_empty m))).
+  negb (cells_nan m || (distribution && (cells_posinf m || sm_empty m || negb (cells_some_finite m)))).
 
 (* ensure_finite: not empty, symbol columns finite, default-symbol column neither NaN nor +inf *)
 Definition row_finite_ok (row : list Z) : bool :=
